@@ -72,6 +72,9 @@ type Req struct {
 	XFF    string   `json:"x_forwarded_for,omitempty"`
 	XRI    string   `json:"x_real_ip,omitempty"`
 	HasXFF bool     `json:"-"`
+	// Extra: further client-supplied field lines (name, value), in order. Nothing in the statement lets
+	// the access decision depend on them.
+	Extra [][2]string `json:"other_headers,omitempty"`
 }
 
 // JSON renders the request unambiguously for failure messages.
@@ -107,6 +110,13 @@ func (s *sut) do(r Req) Resp {
 	}
 	if r.XRI != "" {
 		req.Header.Set("X-Real-IP", r.XRI)
+	}
+	for _, h := range r.Extra {
+		if strings.EqualFold(h[0], "Content-Type") {
+			req.Header.Set(h[0], h[1]) // a request has one media type
+			continue
+		}
+		req.Header.Add(h[0], h[1])
 	}
 	rec := httptest.NewRecorder()
 	s.h.ServeHTTP(rec, req)
